@@ -197,12 +197,15 @@ def expected_join(alls, dis):
     """model-free statement of join: concatenation of the operand fields, operand i without its last frame when
     discard_overlapping_frames is set and that frame equals (all |dx| < 2e-3) the first frame of operand i+1"""
     keep = [x.n_frames for x in alls]
+    trim, margin = [False] * len(alls), []
     if dis:
         for i in range(len(alls) - 1):
             x0, x1 = np.asarray(alls[i]._xyz)[-1], np.asarray(alls[i + 1]._xyz)[0]
+            margin.append(float(np.abs(x1 - x0).max()) if x0.size else 0.0)
             if np.all(np.abs(x1 - x0) < 2e-3):
                 keep[i] -= 1
-    out = {}
+                trim[i] = True
+    out = {"trim": trim, "margin": margin}
     for nm in ("_xyz", "_time", "_unitcell_lengths", "_unitcell_angles"):
         if all(getattr(x, nm) is not None for x in alls):
             out[nm] = np.concatenate([np.asarray(getattr(x, nm))[:k] for x, k in zip(alls, keep)])
@@ -253,6 +256,7 @@ def run_case(md, case):
         regs.append(md.Trajectory(xyz, make_top(md, chains), **kw))
 
     steps = []
+    overlap = []       # numeric overlap decisions of every join(discard_overlapping_frames=True)
     prop = []          # model-free property oracle failures
     for si, op in enumerate(case["ops"]):
         name = op[0]
@@ -296,6 +300,8 @@ def run_case(md, case):
                     want = expected_join(alls, dis)
                 except Exception:  # noqa: BLE001   (empty operand: the implementation must raise as well)
                     want = None
+                if dis and want is not None:
+                    overlap.append({"step": si, "trim": want["trim"], "margin": want["margin"]})
                 if len(os_) == 1 and chk and not dis and (len(op) > 4 and op[4] == "plus"):
                     new = t + os_[0]
                 elif len(os_) == 1:
@@ -310,6 +316,8 @@ def run_case(md, case):
                     want = expected_join(alls, dis)
                 except Exception:  # noqa: BLE001
                     want = None
+                if dis and want is not None:
+                    overlap.append({"step": si, "trim": want["trim"], "margin": want["margin"]})
                 new = md.join(alls, discard_overlapping_frames=dis)
                 check_join(prop, si, new, want, alls[0])
             elif name == "stack":
@@ -456,7 +464,7 @@ def run_case(md, case):
             if np.shares_memory(arrays[x][1], arrays[y][1]):
                 share.append([arrays[x][0], arrays[y][0]])
     same_top = [[i, j] for i in range(len(regs)) for j in range(i + 1, len(regs)) if tops[i] == tops[j]]
-    return {"steps": steps, "regs": out_regs, "share": share, "same_top": same_top, "prop": prop,
+    return {"steps": steps, "regs": out_regs, "share": share, "same_top": same_top, "prop": prop, "overlap": overlap,
             "sources": {str(s): {k: v.tolist() for k, v in d.items()} for s, d in sources.items()},
             "masses": masses}
 
